@@ -43,25 +43,18 @@ CALM_STEP_BUDGET = 200
 
 
 # ----------------------------------------------------------------------------- scratch space
-def _scratch_base():
-    for cand in ("/dev/shm", tempfile.gettempdir()):
-        if os.path.isdir(cand) and os.access(cand, os.W_OK):
-            return cand
-    return tempfile.gettempdir()
-
-
 _PROC_DIR = None
 _RUN_NO = 0
 
 
 def new_run_root():
+    """A fresh scratch directory for one run, under the batch's scratch root (runner.scratch_root(), removed by the
+    main process when the batch ends - pool workers exit through os._exit and cannot clean up themselves)."""
     global _PROC_DIR, _RUN_NO
-    if _PROC_DIR is None or not _PROC_DIR.endswith(f"-{os.getpid()}"):
-        _PROC_DIR = os.path.join(_scratch_base(), f"twv-{os.getpid()}")
+    if _PROC_DIR is None or not _PROC_DIR.endswith(f"w{os.getpid()}"):
+        _PROC_DIR = os.path.join(R.scratch_root(), f"w{os.getpid()}")
         shutil.rmtree(_PROC_DIR, ignore_errors=True)
         os.makedirs(_PROC_DIR, exist_ok=True)
-        import atexit
-        atexit.register(shutil.rmtree, _PROC_DIR, True)
     _RUN_NO += 1
     root = os.path.join(_PROC_DIR, "r")
     shutil.rmtree(root, ignore_errors=True)
